@@ -31,9 +31,41 @@ type subject struct {
 	Ctor    string // JS expression (ordinary subjects)
 	Bridged string
 	Props   []string
+	// Shallow subjects (the arguments-object matrix) get histories of length
+	// <= 1 (thorough <= 2) instead of <= 2 (thorough 3).
+	Shallow bool
 }
 
-var subjects = []subject{
+// argumentsSubjects: the arguments object for every (#formals, #actuals) in
+// {0..3}^2 — each probed at every index 0..max(formals, actuals) — plus
+// duplicate parameter names and a parameter named `arguments`.
+func argumentsSubjects() []subject {
+	var out []subject
+	formals := []string{"a", "b", "c"}
+	actuals := []string{"1", `"s"`, "{}"}
+	for f := 0; f <= 3; f++ {
+		for a := 0; a <= 3; a++ {
+			var props []string
+			for i := 0; i <= max(f, a); i++ {
+				props = append(props, fmt.Sprint(i))
+			}
+			out = append(out, subject{Name: fmt.Sprintf("args-f%d-a%d", f, a), Shallow: true, Props: props,
+				Ctor: fmt.Sprintf("(function(%s){ return arguments })(%s)", strings.Join(formals[:f], ", "), strings.Join(actuals[:a], ", "))})
+		}
+	}
+	out = append(out,
+		subject{Name: "args-dup-a1", Shallow: true, Props: []string{"0", "1", "2"}, Ctor: `(function(a, a){ return arguments })(1)`},
+		subject{Name: "args-dup-a2", Shallow: true, Props: []string{"0", "1", "2"}, Ctor: `(function(a, a){ return arguments })(1, 2)`},
+		subject{Name: "args-dup3-a0", Shallow: true, Props: []string{"0", "1", "2"}, Ctor: `(function(a, b, a){ return arguments })()`},
+		subject{Name: "args-named-arguments", Shallow: true, Props: []string{"0", "1"}, Ctor: `(function(a, arguments){ return arguments })(1, [2])`},
+		subject{Name: "args-named-arguments-unpassed", Shallow: true, Props: []string{"0", "1"}, Ctor: `(function(arguments, b){ return [arguments, b] })()`},
+		subject{Name: "args-closure", Shallow: true, Props: []string{"0", "1"}, Ctor: `(function(arguments){ var f = function(){ return arguments }; f.keep = arguments; return f })(1)`},
+		subject{Name: "args-callee-chain", Shallow: true, Props: []string{"0", "1", "callee", "length"}, Ctor: `(function(a, b){ a = 5; return arguments })(1)`},
+	)
+	return out
+}
+
+var subjects = append([]subject{
 	{Name: "data", Ctor: `({x: 1})`, Props: []string{"x"}},
 	{Name: "accessor", Ctor: `Object.defineProperty({}, "x", {get: function(){ return 1 }, set: function(v){}, enumerable: true, configurable: true})`, Props: []string{"x"}},
 	{Name: "fixed-data", Ctor: `Object.defineProperty({}, "x", {value: 1})`, Props: []string{"x"}},
@@ -47,7 +79,8 @@ var subjects = []subject{
 	{Name: "go-map", Bridged: "map", Props: []string{"a"}},
 	{Name: "go-slice", Bridged: "slice", Props: []string{"0"}},
 	{Name: "go-array", Bridged: "array", Props: []string{"0"}},
-}
+	{Name: "go-named-map", Bridged: "nmap", Props: []string{"a", "zz"}},
+}, argumentsSubjects()...)
 
 // steps: o is the subject, P the property name. Every step runs inside
 // try/catch: a thrown TypeError is a legitimate outcome of a step.
@@ -93,6 +126,8 @@ var histObservers = []struct{ Name, Src string }{
 	{"keys", `Object.keys(o).join() + "|" + Object.getOwnPropertyNames(o).join()`},
 	{"for-in", `(function(){ var k = []; for (var n in o) k.push(n); return k.join() })()`},
 	{"json", `JSON.stringify(o)`},
+	{"slice", `Array.prototype.slice.call(o).length + "|" + Array.prototype.concat.call([], o).length`},
+	{"in", `(function(){ return [P in o, Object.prototype.hasOwnProperty.call(o, P)].join() })()`},
 	{"read", `(function(){ return [typeof o[P], P in o, Object.prototype.hasOwnProperty.call(o, P), Object.prototype.propertyIsEnumerable.call(o, P)].join() })()`},
 	{"write", `(function(){ o[P] = 9; return typeof o[P] })()`},
 	{"delete", `delete o[P]`},
@@ -133,8 +168,12 @@ func runHistory(r *rc) {
 	n := len(histSteps)
 	for _, s := range subjects {
 		for _, prop := range s.Props {
-			// all step sequences of length 1..depth, shortest first
-			for l := 1; l <= depth; l++ {
+			// all step sequences of length 0..depth, shortest first
+			maxLen := depth
+			if s.Shallow {
+				maxLen = depth - 1
+			}
+			for l := 0; l <= maxLen; l++ {
 				idx := make([]int, l)
 				for {
 					names := make([]string, l)
@@ -142,6 +181,9 @@ func runHistory(r *rc) {
 						names[i] = histSteps[st].Name
 					}
 					key := s.Name + "|" + prop + "|" + strings.Join(names, ".")
+					if l == 0 {
+						key = s.Name + "|" + prop + "|-"
+					}
 					if r.MinePrefix(key) {
 						if r.Expired() {
 							r.Cap("time budget reached")
